@@ -71,6 +71,15 @@ func extReflectTypeOf(e *Env, fr *Frame, fn *ssa.Function, args []Value, rt type
 	return &Iface{T: mkIte(mkEq(iv.T, "0"), "0", e.rtypeTerm(sx("dyntag", iv.T))), Typ: rt}
 }
 
+// extNonNilPtr: returns a non-nil pointer to an object of the external type (time.AfterFunc ...)
+func extNonNilPtr(e *Env, fr *Frame, fn *ssa.Function, args []Value, rt types.Type, st *State) Value {
+	v := e.freshValue(rt, "ext")
+	if p, ok := v.(*Ptr); ok {
+		e.assume(mkAnd(sx("<", "0", p.Ref)))
+	}
+	return v
+}
+
 var externs map[string]externFn
 
 func init() {
@@ -113,6 +122,8 @@ func init() {
 	"(*strings.Builder).Write":       extBuilderWrite,
 	"crypto/sha256.Sum256":           extSha256Sum,
 	"crypto/sha256.New":              extNonNil,
+	"time.AfterFunc":                 extNonNilPtr,
+	"time.NewTimer":                  extNonNilPtr,
 	"reflect.TypeFor":                extReflectTypeFor,
 	"reflect.TypeOf":                 extReflectTypeOf,
 	"google.golang.org/protobuf/types/known/timestamppb.New":          extTimestampNew,
